@@ -3,7 +3,7 @@ CONSTANTS
   n1 = n1
   n2 = n2
   n3 = n3
-  Nodes <- N3
+  Nodes <- N2
   NW = 3
   WKeys <- KeysMix3
   WKinds <- KindsMix3
